@@ -309,6 +309,7 @@ PROPS["C11"] = {
 }
 
 PROPS["C10"] = {
+    "oneshot": True, "oneshot_tiers": ("thorough",),
     "technique": "property testing + boundary enumeration of every exported entry point against a three-valued representability oracle (MUST_ACCEPT / MUST_REJECT / EITHER) computed from the standards' capacity tables; panics recovered, hangs caught by a 60 s watchdog; result-shape check by reflection",
     "level_text": "exploration with enumerated boundaries: for every entry point (plain and WithColor) x generated/hostile contents x whole parameter domains (QR 4 levels x 4 modes, PDF417 level byte 0..255, Aztec layers -40..40 and ecc% 0..400, Code 39/93 flags) the call must return without panic, yield exactly one of (barcode, error), accept what the oracle says is representable and reject what it says is not; capacity and capacity+1 of every QR version/level/mode, every DataMatrix size, the 80-rune Code 128 limit, PDF417 and Aztec capacities with homogeneous content are enumerated",
     "level_note": "trusted: the representability oracle of DESIGN.md appendix A (exact for QR, DataMatrix, all linear symbologies, PDF417/Aztec with homogeneous content; sound bounds and EITHER otherwise); undefined QR level/mode constants and negative Aztec percentages are outside the domain; the Aztec empty payload is not judged (known finding of C03)",
@@ -316,6 +317,7 @@ PROPS["C10"] = {
         {"name": "regression", "kind": "plain", "test": "TestReplayDir"},
         {"name": "boundaries", "kind": "plain", "test": "TestC10Boundaries"},
         {"name": "rapid", "kind": "rapid", "test": "TestC10Rapid", "checks": {"quick": 60000, "thorough": 2000000}},
+        {"name": "huge", "kind": "plain", "test": "TestC10Huge", "tiers": ("thorough",)},
     ],
     "universes": {"entry_points": [f"{f} {c}" for f in FAMS + ("addchecksum",) for c in ("plain", "colour") if not (f == "addchecksum" and c == "colour")]},
     "rule": "rapid: entry point drawn uniformly from the 12 encoder families + AddCheckSum; content = hostile constant (sign characters, '*', DEL, U+0080, U+00F0..F5, "
@@ -434,5 +436,15 @@ RULE_ADDENDA['C10'] += ' PDF417 also: >= 5 upper-case characters followed by >= 
 RULE_ADDENDA['C09'] += ' A result exposes CheckSum() exactly when its source does; a result that reports a colour scheme is drawn in it; giant part also scales giant SOURCES (a view of more than 10^9 pixels a side).'
 RULE_ADDENDA['C11'] += ' Sweep also: a slice-based colour type and color.Palette as the model (values that cannot be compared with ==).'
 RULE_ADDENDA['C07'] += ' thorough: 8 million characters (32-bit sums).'
+RULE_ADDENDA['C10'] += ' Thorough tier only: inputs of 1 to 16 million characters (Aztec, PDF417, DataMatrix, QR, Code 128, EAN, Codabar; 1-2 million for 2 of 5 and Code 39/93), each in a process of its own; a process that dies of stack exhaustion or a fatal error is a violation, a time limit or out-of-memory is not judged.'
+RULE_ADDENDA['C16'] += ' Crowd bursts: 600 simultaneous callers of one 2D family with 400-character contents.'
+RULE_ADDENDA['C18'] += ' Byte views of every length 0..8300 and around 2^14..2^17 (fresh zero list and appended pattern) under a watchdog.'
+RULE_ADDENDA['C15'] += ' Eviction part: the first call is also repeated after exactly 255, 256, 257, 8192 (1D and DataMatrix, thorough all: 32768, 65535, 65536) other calls; the Aztec probe reuses the caller buffer for a second payload.'
+RULE_ADDENDA['C17'] += ' Check-symbol counts up to 4095 for GF(1024)/GF(4096); operands on two separately constructed instances of the same field.'
+RULE_ADDENDA['C14'] += ' Also: scaling to a height of 0; the exported utils constructors of 1D codes with a checksum.'
+RULE_ADDENDA['C06'] += ' Magic part also: digit strings of length 7/8/12/13 modulo 256 and modulo 65536.'
+RULE_ADDENDA['C09'] += ' Giant part also: default fill of a scheme-less source while barcode.ColorScheme16 is reassigned.'
+for _pid in ('C01', 'C02', 'C03', 'C04'):
+    RULE_ADDENDA[_pid] += ' (procs part: also GOMAXPROCS 16, 17, 24, 32, 48, 64, 100.)'
 for _pid, _add in RULE_ADDENDA.items():
     PROPS[_pid]["rule"] += _add
